@@ -407,6 +407,13 @@ class Tokenizer:
         tokens.pop()  # remove final extra space
 
 
+# Non-ASCII characters that re.IGNORECASE matches against the ASCII letters
+# i, s and k but that str.lower() does not turn into those letters.
+IGNORECASE_EXTRA_FOLDS = str.maketrans(
+    {"\u0130": "i", "\u0131": "i", "\u017f": "s", "\u212a": "k"}
+)
+
+
 @dataclass
 class AhocorasickTokenizer(Tokenizer):
     """A performance-optimized Tokenizer using the
@@ -449,7 +456,7 @@ class AhocorasickTokenizer(Tokenizer):
                 unique_extractors.update(extractors)
         if len(self.case_insensitive_filter):
             for _, extractors in self.case_insensitive_filter.iter(
-                text.lower()
+                text.translate(IGNORECASE_EXTRA_FOLDS).lower()
             ):
                 unique_extractors.update(extractors)
         # Run the selected extractors in the order of self.extractors, like
